@@ -1,5 +1,6 @@
 import Kio.Proofs.GenSpec
 import Kio.Proofs.GenCoherent
+import Kio.Proofs.GenSucceeds
 import Kio.Props.C02
 import Kio.Pinned.Defs
 import Kio.Generated.Info
@@ -91,6 +92,19 @@ theorem primarr_nullable_witness :
 theorem supported_names_distinct (d : MsgDef) (b : List (List Nat)) (v : Nat) (gs : List GClass)
     (hs : Supported d v = true) (h : module d b v = .ok gs) : (gs.map (·.name)).Nodup :=
   coh_module_nodup hs h
+
+/-- **generation succeeds**: on a supported definition whose common structures do not refer to one
+    another in a cycle (`acyclicCommon`: each may refer only to ones listed after it) and whose size is
+    below the generator model's fuel, the generator produces a module — so the theorems below, which
+    speak about the produced classes, are not conditional on anything but the definition itself.  A
+    self-referential common structure makes the generator run out of fuel
+    (`Kio.Gen.CounterSucc.module_succeeds_needs_acyclic`). -/
+theorem generates (env : Env) (ht : env.time = TimeCfg.repaired)
+    (d : MsgDef) (b : List (List Nat)) (v : Nat)
+    (hs : Supported d v = true) (hflat : flatCommon d = true) (hsz : 2 * d.size + 2 ≤ maxDepth) :
+    ∃ gs, module d b v = .ok gs ∧ (gs.map (·.name)).Nodup ∧
+      ∀ g ∈ gs, g.schema.wf env = true ∧ g.schema.tagArrOk = true ∧ g.schema.fewFields = true :=
+  supported_generates env ht d b v hs hflat hsz
 
 /-- **coherence**: every class generated from a supported definition is coherent (`Schema.wf`, the
     hypothesis of C01–C10), has no tagged nullable entity array and fewer than 2^35 fields -/
